@@ -1590,13 +1590,15 @@ open Aux
 
 /-- the code shapes the model relies on without branching on them (extracted into `Gen.C29`): guards of
 `maybe_write_to_shm` in source order with a strict `<`, requested sizes, the senders route every batch, the readers
-resolve and attach the release function, the release closure frees its own offset -/
+resolve and attach the release function, the release closure frees its own offset, a region is decoded through a stream
+reader (nested dictionaries) with a schema message rebuilt from the schema at hand (metadata) -/
 theorem C29_shapes :
     Gen.C29.guardZeroRows = true ∧ Gen.C29.guardStrictLtMin = true ∧ Gen.C29.guardAllocNone = true ∧
     Gen.C29.guardOrderOk = true ∧ Gen.C29.nondictEstimate = true ∧ Gen.C29.dictExact = true ∧
     Gen.C29.noneOnRefusal = true ∧ Gen.C29.releaseFreesOffset = true ∧ Gen.C29.requestResolves = true ∧
     Gen.C29.serverResolvesInput = true ∧ Gen.C29.flushRoutes = true ∧ Gen.C29.resultRoutes = true ∧
-    Gen.C29.inputRoutes = true ∧ Gen.C29.readerAttachesRelease = true ∧ 0 < Gen.C29.streamOverhead := by
+    Gen.C29.inputRoutes = true ∧ Gen.C29.readerAttachesRelease = true ∧ Gen.C29.deserializeStreamReader = true ∧
+    Gen.C29.schemaMessageUncached = true ∧ 0 < Gen.C29.streamOverhead := by
   decide
 
 /-- **transparency**: for every allocator (even one violating its contract), threshold, size function and client history,
